@@ -304,6 +304,22 @@ def views_history(ctx, kind, start, hist, warm):
                            'a ctrlpts list read before the edit now has %d entries (had %d)' % (len(held[1]), len(snap[1])))
         if warm or step == len(hist) - 1:
             _read_views(ctx, tag, obj, kind, P, W)
+    # a control point list whose length differs from the weights vector cannot be paired with the weights: the assignment is
+    # rejected (it used to drop the surplus points silently) and every view stays what it was
+    if P is not None:
+        longer = _copy2(P) + [[c + 1 for c in P[-1]]]
+        try:
+            obj.ctrlpts = longer
+            rejected = False
+        except Exception as e:
+            if type(e).__name__ == 'CheckFailed':
+                raise
+            rejected = True
+        if rejected:
+            _read_views(ctx, 'after_rejected_ctrlpts', obj, kind, P, W)
+        else:
+            ctx.check_true('ctrlpts.other_count.set_then_read_back', len(obj.ctrlpts) == len(longer),
+                           'assigned %d control points, %d read back' % (len(longer), len(obj.ctrlpts)))
     # idempotent re-assignment of what was read (round trip through the object itself)
     rp, rw = _copy2(obj.ctrlpts), list(obj.weights)
     obj.ctrlpts = rp
